@@ -21,18 +21,20 @@ func init() {
 			"N3 identity fast path: a FilterJson that rebuilds JSON returns the original bytes when nothing changed, and the 'different' flag is raised on every edge where a component's filtered bytes are not the input slice, " +
 			"N4 decoded strings (member names) are written into rebuilt JSON only through an encoder, on the error edge of json.Marshal of the same string, or under guards excluding '\"', '\\' and all control characters, " +
 			"N5 a rebuilding FilterJson returns the original bytes only if no component changed: after a component filter whose result is not the input slice (sameSlice false, or a helper's changed signal) no path reaches a return of the data parameter, whatever the flag held before (all-elements engine). " +
+			"N6 validators and filters decode each value as the kind they test for (no json.Number, no interface{} destination); N7 StructType.IsAssignableFrom refuses on differing map dimensions only after the member types refused. " +
 			"NOT decided: idempotence, validity of the rebuilt JSON, int/float normalisation - all value-level.",
 		Assumptions: commonAssumptions,
 	}
 	Registry["C07"] = Entry{
 		Run: runC07,
-		Explanation: "Decides five structural necessary conditions of 'accepted programs are type-safe; ill-typed bindings are rejected' (thin claim): " +
+		Explanation: "Decides structural necessary conditions of 'accepted programs are type-safe; ill-typed bindings are rejected' (thin claim): " +
 			"T1 assignability and type equality recurse on the right operands (operand symmetry over every IsAssignableFrom / CheckEqual implementation), " +
 			"T2 in every implementation of Type.IsValidExpression the reference arm returns nil only after resolveType succeeded and IsAssignableFrom(receiver, resolved type) succeeded (sibling agreement over all implementations), and the split / disabled arms delegate, " +
 			"T3 wherever a type id is wrapped in a map (MapDim = ArrayDim + 1, found by shape) the test MapDim == 0 of the same value is crossed after its last definition (no silent map<map> collapse), " +
 			"T4 (*MergeExp).HasRef delegates to the merged value only under a true KnownLength() test (a merge over a run-time length is never handed to a stage as a constant), " +
 			"T5 wherever a typed map is turned into its value type (ArrayDim = MapDim - 1, found by shape, package syntax) a test that the type has no array dimension left dominates the store, in the function or at every call of it (the array dimension is the outer one: the element of map<T>[] is map<T>, not T). " +
 			"T6 no function reachable from Pipeline.topoSort reads BindStms.Table (the sort runs before the binding tables are built; premise re-established on every run). " +
+			"T7 the in-place topological sort re-examines the slot it filled by shifting. " +
 			"NOT decided: soundness of the whole relation, projection, array dimensions, error locations: this decides a few mechanisms, not the property's behaviour.",
 		Assumptions: commonAssumptions,
 	}
